@@ -82,6 +82,7 @@ Deser(t, j) ==
 
 \* ---- configurations and the valid values enumerated for them -------------------------------------
 Cfg0 == [lo |-> NoB, hi |-> NoB, il |-> TRUE, ih |-> TRUE, an |-> FALSE, it |-> "none", objs |-> "strs", cls |-> "int",
+         soft |-> FALSE,  \* soft: softbounds=(3, 3.5) declared as well -- a hint for user interfaces that constrains nothing
          dn |-> FALSE]    \* dn: declared without a default, which leaves the default None (ListSelector; Selector without objects)
 BOOL == {TRUE, FALSE}
 Norm(CS) == {c \in CS : (c.lo = NoB => c.il) /\ (c.hi = NoB => c.ih)}
@@ -89,7 +90,8 @@ Bounded == Norm({[Cfg0 EXCEPT !.lo = lo, !.hi = hi, !.il = il, !.ih = ih, !.an =
                    lo \in {NoB, 0, 2}, hi \in {NoB, 8}, il \in BOOL, ih \in BOOL, an \in BOOL})
 AN == {[Cfg0 EXCEPT !.an = an] : an \in BOOL}
 Cfgs(t) ==
-  CASE t \in {"Integer", "Number", "Range"} -> Bounded
+  CASE t \in {"Integer", "Number"} -> Bounded \cup {[b EXCEPT !.soft = TRUE] : b \in Bounded}
+    [] t = "Range" -> Bounded
     [] t = "List" -> {[Cfg0 EXCEPT !.an = an, !.it = it] : an \in BOOL, it \in {"none", "int", "str", "float"}}
     [] t = "Selector" -> {[Cfg0 EXCEPT !.an = an, !.objs = o] : an \in BOOL, o \in {"strs", "ints", "mixed", "dictints"}}
                          \cup {[Cfg0 EXCEPT !.an = an, !.objs = "empty", !.dn = TRUE] : an \in BOOL}
